@@ -184,6 +184,9 @@ pub struct Mode {
     pub lenient: bool,
     /// abort an operation (by unwinding out of the hook) after this many consecutive accesses that wrote nothing
     pub budget: Option<u32>,
+    /// drop every zero-sized handle right away, also an owned one that embeds an arena value (keeps the
+    /// handle indices of an all-borrowed and an all-owned run of one history aligned)
+    pub drop_zero_now: bool,
 }
 
 /// panic payload used to abandon an operation that exceeded its step budget
@@ -459,6 +462,26 @@ impl<A: Flavor> World<A> {
 
     pub fn a(&self) -> &'static A {
         self.aref(self.first())
+    }
+
+    /// C16, after the interpreter had to stop at a failure of another property (for instance a cursor
+    /// that left [data_offset, capacity]): "history so far + a few small allocations" is a history too,
+    /// and whatever else went wrong the arena must not write into the user's reserved prefix.
+    pub fn reserved_epilogue(&mut self) -> R {
+        if self.ro || self.arenas.iter().all(|a| a.is_none()) {
+            return Ok(());
+        }
+        let arena = self.a();
+        let d = arena.data_offset();
+        for n in [1u32, 8, (self.cfg.reserved.min(64) + 8) as u32] {
+            let r = std::panic::catch_unwind(std::panic::AssertUnwindSafe(|| alloc_bytes(arena, n, false).map(|h| (h.offset(), h.capacity(), std::mem::forget(h)))));
+            if let Ok(Ok((off, cap, _))) = r {
+                ensure!(cap == 0 || off >= d, "C16", "allocation-in-prefix", "after the failure above alloc_bytes({n}) returned [{off}, {}) in front of data_offset() {d}", off + cap);
+            }
+        }
+        let rs = arena.reserved_slice();
+        ensure!(rs == &self.reserved_expect[..], "C16", "reserved-written", "reserved prefix was modified by an arena operation (an allocation made after the failure above)");
+        Ok(())
     }
 
     fn live_arena_ixs(&self) -> Vec<usize> {
@@ -1007,9 +1030,11 @@ impl<A: Flavor> World<A> {
                     let embeds = post.refs - pre.refs.min(post.refs);
                     let pre2 = self.snap();
                     let obj = guard_obj.0.take().unwrap();
-                    if embeds == 0 {
+                    if embeds == 0 || self.mode.drop_zero_now {
                         guard("drop(zero-size handle)", "C01", move || drop(obj))?;
                         let post2 = self.snap();
+                        let mut pre2 = pre2;
+                        pre2.refs -= embeds;
                         ensure!(pre2 == post2, "C01", "zero-size-drop-effect", "dropping a zero-sized handle changed state {pre2:?} -> {post2:?}");
                     } else {
                         let id = self.fresh_id();
@@ -1807,6 +1832,12 @@ pub fn run_history<A: Flavor>(cfg: &Cfg, ops: &[Op], mode: Mode) -> RunOut {
     }
     for (i, op) in ops.iter().enumerate() {
         if let Err(v) = w.step(i, op) {
+            let mut v = v;
+            if OWNER.with(|o| o.get()) == Some("C16") && !owns(v.prop, "C16") && v.sig != "infra" && !v.sig.starts_with("budget") {
+                if let Err(v2) = w.reserved_epilogue() {
+                    v = Viol { prop: v2.prop, sig: v2.sig.clone(), msg: format!("{} [after {}:{} {}]", v2.msg, v.prop, v.sig, v.msg) };
+                }
+            }
             let (classes, trace) = (w.classes.clone(), std::mem::take(&mut w.trace));
             w.leak();
             return RunOut { classes, trace, mem: vec![], viol: Some(v), foreign: take_foreign() };
